@@ -34,6 +34,17 @@ func VerifH_pool_alias() {
 			hasBody:     true,
 		}
 	}
+	// a recycled buffer smaller than the body makes the codec grow it (a different buffer than the
+	// pool handed out); a fresh pool starts with capacity 64
+	switch vfChoice(3) {
+	case 1:
+		b := make([]byte, 0, 1)
+		bytesPool.Put(&b)
+		vfCover("small-pooled-buffer")
+	case 2:
+		b := make([]byte, 0, 2)
+		bytesPool.Put(&b)
+	}
 	n := 1 + vfLen(3)
 	body1 := vfBytes(n)
 	body2 := vfBytes(n)
